@@ -378,7 +378,7 @@ example : Batch.OK 1000 ⟨3, [(exSet, parseHeader exSet)], [.set (parseHeader e
 /-- **read-your-writes behind the eviction policy**: whatever the memory limit, the accounted usage and the victims the
     store's own eviction takes, a store (no CAS) is acknowledged and an immediate retrieval returns exactly its value and
     flags — the store's record is never among its own victims -/
-theorem C01_read_your_writes_under_policy (p : Policy) (now : Nat) (k : Key) (v : Bytes) (f ttl : Nat) :
+theorem C01_read_your_writes_any_limit (p : Policy) (now : Nat) (k : Key) (v : Bytes) (f ttl : Nat) :
     (p.set now k (Record.new v 0 f ttl)).2 = .ok p.inner.casId ∧
     ((p.set now k (Record.new v 0 f ttl)).1.get now k).2 = .ok ⟨⟨now, p.inner.casId, f, ttl⟩, v⟩ := by
   obtain ⟨hack, hl⟩ := policy_set_cas0 p now k (Record.new v 0 f ttl) (by simp [Record.new, Meta.new])
@@ -404,4 +404,4 @@ end Memc
 #print axioms Memc.runOps_append
 #print axioms Memc.C01_wire_history
 #print axioms Memc.C01_wire_read_your_writes
-#print axioms Memc.C01_read_your_writes_under_policy
+#print axioms Memc.C01_read_your_writes_any_limit
